@@ -232,7 +232,16 @@ class Unit:
         rec = {"name": name, "function": fnq, "verdict": verdict, "solver": solver, "seconds": round(dt, 3)}
         if info:
             rec["info"] = {k: v for k, v in info.items() if isinstance(v, (str, int, float, bool))}
-        if verdict == "undecided":
+        if verdict == "discharged" and self.tier == "thorough" and s is not None:
+            # thorough tier: every discharged obligation is re-checked on its SMT-LIB2 export by independent back
+            # ends (cvc5 1.0.3, then the Debian z3 4.8.12 binary). `sat` from either one is a solver disagreement:
+            # the obligation is reported undecided (never a violation, never proved).
+            sec = second_opinion(s, int(os.environ.get("PYVC_SECOND_MS", "4000")))
+            rec["second"] = sec
+            if sec.startswith("sat"):
+                verdict = rec["verdict"] = "undecided"
+                rec["reason"] = f"solver disagreement: {solver} says unsat, {sec}"
+        if verdict == "undecided" and "reason" not in rec:
             rec["reason"] = f"solver: {s.reason_unknown()}"
         if verdict == "refuted":
             w = {}
@@ -339,6 +348,33 @@ def cvc5_check(solver: z3.Solver, timeout_ms: int) -> str:
         return "unknown"
     finally:
         os.unlink(path)
+
+
+def second_opinion(solver: z3.Solver, timeout_ms: int) -> str:
+    try:
+        txt = solver.to_smt2()
+    except Exception:
+        return "unknown (no export)"
+    with tempfile.NamedTemporaryFile("w", suffix=".smt2", delete=False) as f:
+        f.write(txt)
+        path = f.name
+    with tempfile.NamedTemporaryFile("w", suffix=".smt2", delete=False) as f:
+        f.write("(set-logic ALL)\n" + txt)
+        path5 = f.name
+    try:
+        for nm, cmd in (("cvc5", ["/usr/bin/cvc5", "--strings-exp", f"--tlimit={timeout_ms}", path5]),
+                        ("z3-4.8.12", ["/usr/bin/z3", f"-T:{max(1, timeout_ms // 1000)}", path])):
+            try:
+                out = subprocess.run(cmd, capture_output=True, text=True, timeout=timeout_ms / 1000 + 5)
+                first = out.stdout.strip().splitlines()[0] if out.stdout.strip() else "unknown"
+            except Exception:
+                first = "unknown"
+            if first in ("sat", "unsat"):
+                return f"{first} ({nm})"
+        return "unknown"
+    finally:
+        os.unlink(path)
+        os.unlink(path5)
 
 
 def run_unit(prop: str, name: str, func, tier: str, root):
